@@ -182,7 +182,7 @@ impl WorldC {
                 max_clients,
                 protocol_id,
                 public_addresses: vec![server_addr],
-                authentication: ServerAuthentication::Secure { private_key: key },
+                authentication: if cfg.get("unsecure") == 1 { ServerAuthentication::Unsecure } else { ServerAuthentication::Secure { private_key: key } },
             },
             UdpSocket::verif_bind(server_addr),
         )
@@ -225,7 +225,8 @@ impl WorldC {
             ledger: Vec::new(),
             ev_connected: BTreeMap::new(),
             submit_n: 0,
-            timeout_s: cfg.get("timeout").max(1),
+            // unsecure clients make their own token: 15 s timeout, 300 s expiry
+            timeout_s: if cfg.get("unsecure") == 1 { 15 } else { cfg.get("timeout").max(1) },
             next_id: 1,
             warm_queue: VecDeque::new(),
             local: None,
@@ -255,11 +256,18 @@ impl WorldC {
         let id = self.next_id;
         self.next_id += 1;
         let now = Duration::from_millis(self.sv_ms);
-        let token = ConnectToken::generate(now, self.protocol_id, self.cfg.get("expire").max(5), id, self.timeout_s as i32, vec![self.server_addr], None, &self.key).expect("token");
+        let unsecure = self.cfg.get("unsecure") == 1;
         let s = &mut self.slots[j];
         // a fresh socket: nothing of the previous object is left in its inbox
         self.net.0.borrow_mut().inbox.remove(&s.addr);
-        let transport = NetcodeClientTransport::new(Duration::from_millis(s.clock_ms), ClientAuthentication::Secure { connect_token: token }, UdpSocket::verif_bind(s.addr)).expect("client transport");
+        let transport = if unsecure {
+            // the client builds its own token from its wall clock, which therefore has to agree with the server's
+            let auth = ClientAuthentication::Unsecure { protocol_id: self.protocol_id, client_id: id, server_addr: self.server_addr, user_data: None };
+            NetcodeClientTransport::new(now, auth, UdpSocket::verif_bind(s.addr)).expect("client transport")
+        } else {
+            let token = ConnectToken::generate(now, self.protocol_id, self.cfg.get("expire").max(5), id, self.timeout_s as i32, vec![self.server_addr], None, &self.key).expect("token");
+            NetcodeClientTransport::new(Duration::from_millis(s.clock_ms), ClientAuthentication::Secure { connect_token: token }, UdpSocket::verif_bind(s.addr)).expect("client transport")
+        };
         s.client = Some((RenetClient::new(conn_config()), transport));
         s.id = id;
         s.epoch += 1;
@@ -322,6 +330,7 @@ pub fn gen_cfg(family: &str, rng: &mut Rng) -> Cfg {
     cfg.set("appdisc", *rng.pick(&[0u64, 1, 1]));
     cfg.set("warm", *rng.pick(&[0u64, 6, 6]));
     cfg.set("local", *rng.pick(&[0u64, 0, 1]));
+    cfg.set("unsecure", *rng.pick(&[0u64, 0, 0, 1]));
     let _ = BTreeSet::<u8>::new();
     cfg
 }
